@@ -50,6 +50,8 @@ pub enum MetaSpec {
     OtherHash,
     /// literal text (garbage kinds)
     Text { text: String },
+    /// literal bytes, hex-encoded (garbage that is not valid UTF-8)
+    Hex { hex: String },
 }
 
 #[derive(Serialize, Deserialize, Clone, Copy, Debug, PartialEq, Eq)]
@@ -356,6 +358,15 @@ pub fn meta_text(spec: &MetaSpec, r: &Reference) -> Option<String> {
         MetaSpec::NearVersion => Some(format!("{{\"version\":{},\"database_hash\":{}}}", esc(&near_version(&r.version)), esc(OTHER_HASH))),
         MetaSpec::OtherHash => Some(format!("{{\"version\":{},\"database_hash\":{}}}", esc(&r.version), esc(OTHER_HASH))),
         MetaSpec::Text { text } => Some(text.clone()),
+        MetaSpec::Hex { .. } => None,
+    }
+}
+
+/// The bytes `meta.json` is given by a state (None = the file is absent).
+pub fn meta_bytes(spec: &MetaSpec, r: &Reference) -> Option<Vec<u8>> {
+    match spec {
+        MetaSpec::Hex { hex } => Some((0..hex.len() / 2).filter_map(|i| u8::from_str_radix(&hex[2 * i..2 * i + 2], 16).ok()).collect()),
+        other => meta_text(other, r).map(|t| t.into_bytes()),
     }
 }
 
@@ -365,7 +376,7 @@ pub fn fabricate(p: &Paths, spec: &StateSpec, r: &Reference) -> std::io::Result<
         return Ok(());
     }
     fs::create_dir_all(p.data())?;
-    if let Some(t) = meta_text(&spec.meta, r) {
+    if let Some(t) = meta_bytes(&spec.meta, r) {
         fs::write(p.meta(), t)?;
     }
     match spec.index {
